@@ -1950,7 +1950,7 @@ def analyse_positive(ctx, want_props):
                 if p != {"C18"} and d["kind"] == "struct" and d.get("debug") and any("debug" in x.get("message", "").lower() for x in mine):
                     # the `debug` option itself is what fails: there is no {:?} output for this (rule-valid) declaration
                     p2.add("C19")
-                if p != {"C18"} and d["kind"] == "struct" and (d.get("family") == "CUSTOM" or (d.get("family") == "MISC" and d["name"].startswith(("Paths", "UsesNoDerive")))) \
+                if p != {"C18"} and d["kind"] == "struct" and (d.get("family") in ("CUSTOM", "MACRO") or (d.get("family") == "MISC" and d["name"].startswith(("Paths", "UsesNoDerive")))) \
                         and any(f["ty"]["k"] in ("enum", "optenum", "nested") for f in d["fields"]):
                     # these witnesses exist to show C08 for every kind and spelling of a custom-typed field: if one
                     # does not compile, the conversion the property promises for it does not exist
